@@ -174,7 +174,7 @@ def run_chunk(ctx, n_programs):
             # branches from independent roots) as real workflows: concurrent publishers of one VARIABLE
             # are allowed here, the leaf-granular monitor knows what the statement says about them
             hist = (ctx_stream.gen_fork_nested if rng.random() < 0.6 else ctx_stream.gen_multi_root)(rng)
-            if len(hist) > 14:
+            if len(hist) > 12:
                 continue
             prog = hist_to_program(hist)
             ctx.count('flow', 'program:publish-history-motif')
